@@ -34,18 +34,36 @@ unsafe impl GlobalAlloc for Recorder {
         p
     }
     unsafe fn dealloc(&self, p: *mut u8, l: Layout) {
-        if ON.load(Ordering::Relaxed) { push(2, p as usize, l.size(), l.align()); }
+        // while recording, a release is only LOGGED (kind 2) and carried out at stop(), each block once: a double free
+        // (C18) is then a finding of the audit instead of an abort inside the system allocator, and no address is
+        // reused while the recording runs
+        if ON.load(Ordering::Relaxed) { push(2, p as usize, l.size(), l.align()); if IDX.load(Ordering::Relaxed) <= CAP { return; } }
         unsafe { System.dealloc(p, l) }
     }
     unsafe fn realloc(&self, p: *mut u8, l: Layout, new_size: usize) -> *mut u8 {
         let q = unsafe { System.realloc(p, l, new_size) };
-        if ON.load(Ordering::Relaxed) { push(2, p as usize, l.size(), l.align()); push(1, q as usize, new_size, l.align()); }
+        if ON.load(Ordering::Relaxed) { push(3, p as usize, l.size(), l.align()); push(1, q as usize, new_size, l.align()); }
         q
     }
 }
 
 pub fn start() { IDX.store(0, Ordering::SeqCst); ON.store(true, Ordering::SeqCst); }
-pub fn stop() { ON.store(false, Ordering::SeqCst); }
+pub fn stop() {
+    if !ON.swap(false, Ordering::SeqCst) { return; }
+    // carry out the deferred releases, each block once
+    let n = IDX.load(Ordering::SeqCst).min(CAP);
+    let mut done: std::collections::HashSet<usize> = std::collections::HashSet::new();
+    let mut todo: Vec<(usize, usize, usize)> = Vec::new();
+    for i in 0..n {
+        if EVENTS[4 * i].load(Ordering::Relaxed) == 2 {
+            let ptr = EVENTS[4 * i + 1].load(Ordering::Relaxed);
+            if ptr != 0 && done.insert(ptr) { todo.push((ptr, EVENTS[4 * i + 2].load(Ordering::Relaxed), EVENTS[4 * i + 3].load(Ordering::Relaxed))); }
+        }
+    }
+    for (ptr, size, align) in todo {
+        if let Ok(l) = Layout::from_size_align(size, align.max(1)) { unsafe { System.dealloc(ptr as *mut u8, l) }; }
+    }
+}
 
 #[derive(Debug, Default, Clone)]
 pub struct Audit {
